@@ -57,6 +57,13 @@ func factsC06(r *Repo) []Fact {
 			}
 		}
 	}
+	// --- nested graphs: a node is handed a nested checkpoint only when its parent restores it (C05's fact; the
+	// nested clause of before_honoured rests on it) ---
+	for _, f := range c05StaleFacts(cp, run, where) {
+		if f.Name == "createTasksForwardsStaleCP" {
+			out = append(out, f)
+		}
+	}
 	// --- storeOnlyTopLevelWithID: in both handlers `r.checkPointer.set` sits in the
 	// `else if checkPointID != nil` arm of `if isSubGraph { return &subGraphInterruptError{…} }` ---
 	okAll, found := true, 0
